@@ -163,10 +163,15 @@ impl RuleCV07 {
         Self::iter_statements(file_segment)
             .into_iter()
             .flat_map(|stmt| {
+                // A statement is only "wrapped in brackets" when the bracketed
+                // segment is all the code it holds; brackets which are one part
+                // of a longer statement (e.g. `CREATE STATISTICS s (ndistinct) ON ...`)
+                // must be left alone.
+                let code_children = stmt.segments().iter().filter(|seg| seg.is_code()).count();
                 stmt.segments()
                     .iter()
                     .filter_map(|seg| {
-                        if seg.is_type(SyntaxKind::Bracketed) {
+                        if seg.is_type(SyntaxKind::Bracketed) && code_children == 1 {
                             Some((stmt.clone(), seg.clone()))
                         } else {
                             None
